@@ -4,7 +4,12 @@
 (* MuxPath.rewrite, the ARC route cache).                                                        *)
 (*                                                                                              *)
 (* Data (strings are sequences of one-character strings, see Strings.tla):                      *)
-(*   cfg    = [ipf : Filter, rules : Seq(Rule), mapper : set of backend names that exist]        *)
+(*   cfg    = [ipf : Filter, rules : Seq(Rule), mapper : [backend names that exist -> STRING]]   *)
+(*             mapper is the table behind the server's MuxMapper: for every backend name that    *)
+(*             exists NOW the instance (pipeline object) registered under it, written as a label *)
+(*             (the name itself for the instance of the start; a re-created or updated backend   *)
+(*             is another instance under the same name).  The table belongs to the environment:  *)
+(*             it changes without a reload of the server (Unmap, Map, Remap).                    *)
 (*   Rule   = [host : Str, hostRE : RE, ipf : Filter, paths : Seq(Entry)]                        *)
 (*   Entry  = [path, prefix : Str, re : RE, methods : Seq(Str), headers : Seq(Hdr),             *)
 (*             matchAll : BOOLEAN, rewrite : Str, backend : STRING, ipf : Filter]                *)
@@ -32,7 +37,7 @@
 (*             path is the DECODED request path (URL.Path).  '%' is an ordinary character of it: *)
 (*             a client that sends /a/%2562 asks for the path /a/%62, and matching and rewriting *)
 (*             work on that string and never decode it again.                                    *)
-(*   outcome= [code, be, path]: code 0 = dispatched to backend `be`, which sees `path`;          *)
+(*   outcome= [code, be, path]: code 0 = dispatched to backend instance `be`, which sees `path`; *)
 (*             otherwise the HTTP status sent to the client (be = "", path = <<>>)               *)
 (*                                                                                              *)
 (* CONTRACT LAYER (what the properties say)                                                     *)
@@ -145,8 +150,8 @@ Status(c) == [code |-> c, be |-> "", path |-> <<>>]
 Dispatch(cfg, rt, q) ==
     IF rt.code # 0 THEN Status(rt.code)
     ELSE LET e == EntryAt(cfg, rt.pos) IN
-         IF e.backend \notin cfg.mapper THEN Status(503)
-         ELSE [code |-> 0, be |-> e.backend, path |-> Rewrite(e, q.path)]
+         IF e.backend \notin DOMAIN cfg.mapper THEN Status(503)
+         ELSE [code |-> 0, be |-> cfg.mapper[e.backend], path |-> Rewrite(e, q.path)]
 
 Outcome0(cfg, q) == Dispatch(cfg, RouteSpec(cfg, q), q)
 
@@ -332,16 +337,29 @@ Purge == /\ cache # EmptyCache \/ cache0 # EmptyCache
          /\ last' = [a |-> "purge"]
          /\ UNCHANGED <<cfg, n>>
 
-(* The environment: backend b (a pipeline) is deleted while the server runs, without a reload of   *)
-(* the server.  cfg.mapper is the set of backend names that exist at the time of a request:       *)
-(* "a matched backend name that does not exist yields 503" speaks of that moment, so requests      *)
-(* routed to b after this step get 503 whatever they got before.  (Not part of Next: the mapper    *)
-(* is looked up at dispatch in both layers, Dispatch(cfg, ...), so the step adds nothing to the    *)
-(* refinement checks; the behaviour generator uses it.)  last.q keeps the request served last.     *)
-Unmap(b) == /\ b \in cfg.mapper
-            /\ cfg' = [cfg EXCEPT !.mapper = @ \ {b}]
+(* The environment: the table behind the MuxMapper changes while the server runs, without a reload *)
+(* of the server - a backend (pipeline) is deleted (Unmap), created or created again (Map: a name   *)
+(* some entry may have been pointing to all along), or replaced by a new instance under the same   *)
+(* name (Remap: update of the pipeline).  cfg.mapper is the table at the time of a request: "a     *)
+(* matched backend name that does not exist yields 503" (C01) and "chosen backend ... equals what   *)
+(* the same server with the cache disabled produces for that request" (C12) speak of that moment,  *)
+(* so a request routed to name b is served by the instance registered under b NOW, or gets 503 if  *)
+(* there is none NOW, whatever earlier requests for the same URL got.  lbl: a label no instance of  *)
+(* this behaviour has had yet.  (Not part of Next: the mapper is looked up at dispatch in both     *)
+(* layers, Dispatch(cfg, ...), so the steps add nothing to the refinement checks; the behaviour     *)
+(* generator uses them.)  last.q keeps the request served last.                                     *)
+Unmap(b) == /\ b \in DOMAIN cfg.mapper
+            /\ cfg' = [cfg EXCEPT !.mapper = [x \in DOMAIN @ \ {b} |-> @[x]]]
             /\ last' = [a |-> "unmap", be |-> b, q |-> last.q]
             /\ UNCHANGED <<cache, cache0, n>>
+Map(b, lbl) == /\ b \notin DOMAIN cfg.mapper
+               /\ cfg' = [cfg EXCEPT !.mapper = [x \in DOMAIN @ \cup {b} |-> IF x = b THEN lbl ELSE @[x]]]
+               /\ last' = [a |-> "map", be |-> b, inst |-> lbl, q |-> last.q]
+               /\ UNCHANGED <<cache, cache0, n>>
+Remap(b, lbl) == /\ b \in DOMAIN cfg.mapper /\ cfg.mapper[b] # lbl
+                 /\ cfg' = [cfg EXCEPT !.mapper[b] = lbl]
+                 /\ last' = [a |-> "remap", be |-> b, inst |-> lbl, q |-> last.q]
+                 /\ UNCHANGED <<cache, cache0, n>>
 
 Next == (\E q \in Reqs : Request(q)) \/ Evict
 Spec == Init /\ [][Next]_vars
